@@ -219,7 +219,7 @@ ByteOfRuneFrom(t, i, k) ==
   ELSE LET g == t[i]
            m == Len(g.u)
            rc == CntStarts(g.u, m)
-       IN IF k >= rc * g.n THEN SegLen(g) + ByteOfRuneFrom(t, i + 1, k - rc * g.n)
+       IN IF rc = 0 \/ k >= rc * g.n THEN SegLen(g) + ByteOfRuneFrom(t, i + 1, k - rc * g.n)
           ELSE (k \div rc) * m + StartIdx(g.u, 1, k % rc)
 ByteOfRune(t, k) == ByteOfRuneFrom(t, 1, k)
 
